@@ -143,6 +143,10 @@ pub struct AtomicBool {
     init: bool,
     cell: OnceLock<loom::sync::atomic::AtomicBool>,
     waiters: std::sync::Mutex<Vec<loom::thread::Thread>>,
+    /// latest value in modification order (loom runs one thread at a time, so
+    /// a plain mirror updated at every write is exact); used to tell a genuine
+    /// failed acquisition from a spurious failure of a weak CAS
+    mirror: std::sync::atomic::AtomicBool,
 }
 
 impl std::fmt::Debug for AtomicBool {
@@ -157,6 +161,7 @@ impl AtomicBool {
             init: v,
             cell: OnceLock::new(),
             waiters: std::sync::Mutex::new(Vec::new()),
+            mirror: std::sync::atomic::AtomicBool::new(v),
         }
     }
     #[track_caller]
@@ -165,14 +170,21 @@ impl AtomicBool {
         self.cell
             .get_or_init(|| loom::sync::atomic::AtomicBool::new(self.init))
     }
-    fn failed(&self) {
+    fn failed(&self, wanted: bool) {
         if crate::ctl::in_nowait_lock() {
+            return;
+        }
+        if self.mirror.load(Ordering::Relaxed) == wanted {
+            // the word has the value the attempt expected: a spurious failure
+            // (weak CAS), nobody is going to write the word for us
+            loom::thread::yield_now();
             return;
         }
         self.waiters.lock().unwrap().push(loom::thread::current());
         loom::thread::park();
     }
-    fn written(&self) {
+    fn written(&self, v: bool) {
+        self.mirror.store(v, Ordering::Relaxed);
         let ws: Vec<_> = std::mem::take(&mut *self.waiters.lock().unwrap());
         for w in ws {
             w.unpark();
@@ -185,17 +197,17 @@ impl AtomicBool {
     #[track_caller]
     pub fn store(&self, v: bool, o: Ordering) {
         self.a().store(v, o);
-        self.written();
+        self.written(v);
     }
     #[track_caller]
     pub fn swap(&self, v: bool, o: Ordering) -> bool {
         let r = self.a().swap(v, o);
         if r == v {
             if v {
-                self.failed();
+                self.failed(!v);
             }
         } else {
-            self.written();
+            self.written(v);
         }
         r
     }
@@ -203,8 +215,8 @@ impl AtomicBool {
     pub fn compare_exchange(&self, c: bool, n: bool, s: Ordering, f: Ordering) -> Result<bool, bool> {
         let r = self.a().compare_exchange(c, n, s, f);
         match r {
-            Ok(_) => self.written(),
-            Err(_) => self.failed(),
+            Ok(_) => self.written(n),
+            Err(_) => self.failed(c),
         }
         r
     }
@@ -212,8 +224,8 @@ impl AtomicBool {
     pub fn compare_exchange_weak(&self, c: bool, n: bool, s: Ordering, f: Ordering) -> Result<bool, bool> {
         let r = self.a().compare_exchange_weak(c, n, s, f);
         match r {
-            Ok(_) => self.written(),
-            Err(_) => self.failed(),
+            Ok(_) => self.written(n),
+            Err(_) => self.failed(c),
         }
         r
     }
@@ -221,22 +233,22 @@ impl AtomicBool {
     pub fn fetch_or(&self, v: bool, o: Ordering) -> bool {
         let r = self.a().fetch_or(v, o);
         if r && v {
-            self.failed();
+            self.failed(false);
         } else {
-            self.written();
+            self.written(r | v);
         }
         r
     }
     #[track_caller]
     pub fn fetch_and(&self, v: bool, o: Ordering) -> bool {
         let r = self.a().fetch_and(v, o);
-        self.written();
+        self.written(r & v);
         r
     }
     #[track_caller]
     pub fn fetch_xor(&self, v: bool, o: Ordering) -> bool {
         let r = self.a().fetch_xor(v, o);
-        self.written();
+        self.written(r ^ v);
         r
     }
 }
